@@ -1,5 +1,7 @@
 import Dbus.Model.Message
 import Dbus.Model.Loader
+import Dbus.Model.Encode
+import Driver.Build
 /- driver commands for the wire-format models (C01, C02, C11, C12) -/
 open Dbus Dbus.Spec Dbus.Model
 
@@ -65,6 +67,60 @@ def wireCmd (toks : List String) : String :=
     match ofHex hex, maxLen.toNat?, fds.toNat? with
     | some bs, some mx, some fd => showLoad (loadOne true mx fd bs)
     | _, _, _ => "bad-op"
+  | "build" :: ops => buildCmd ops
+  | ["swap", hex] =>
+    -- what the library does when it reads a message in the other byte order: convert to native
+    match ofHex hex with
+    | some bs =>
+      match loadOne true MAX_MESSAGE_LENGTH 0 bs with
+      | .ok m _ => toHex (encodeMsg { m with endian := .little })
+      | .corrupt => "corrupt"
+      | .incomplete => "incomplete"
+    | none => "bad-op"
+  | ["tobig", hex] =>
+    match ofHex hex with
+    | some bs =>
+      match loadOne true MAX_MESSAGE_LENGTH 0 bs with
+      | .ok m _ => toHex (encodeMsg { m with endian := .big })
+      | _ => "unloadable"
+    | none => "bad-op"
+  | ["reencode", hex] =>
+    -- decode then encode: must reproduce the input bytes of the message (canonicity, executable)
+    match ofHex hex with
+    | some bs =>
+      match loadOne true MAX_MESSAGE_LENGTH 0 bs with
+      | .ok m _ => toHex (encodeMsg m)
+      | .corrupt => "corrupt"
+      | .incomplete => "incomplete"
+    | none => "bad-op"
+  | "edit" :: hex :: ops =>
+    -- ops: set:<code>:<tycode>:<hexval|number>  del:<code>  unk  serial:<n>
+    match ofHex hex with
+    | some bs =>
+      match loadOne true MAX_MESSAGE_LENGTH 0 bs with
+      | .ok m0 _ =>
+        let parseOp (o : String) : Option EditOp :=
+          match o.splitOn ":" with
+          | ["set", c, "u", v] => do
+            let c ← c.toNat?; let v ← v.toNat?
+            pure (.set { code := c, ty := .basic .u32, val := .fixed .u32 v })
+          | ["set", c, t, v] => do
+            let c ← c.toNat?; let v ← ofHex v
+            let b ← (if t = "s" then some BTy.str else if t = "o" then some BTy.path else if t = "g" then some BTy.sig else none)
+            pure (.set { code := c, ty := .basic b, val := .str b v })
+          | ["del", c] => do let c ← c.toNat?; pure (.delete c)
+          | ["unk"] => some .removeUnknown
+          | ["serial", n] => do let n ← n.toNat?; pure (.setSerial n)
+          | _ => none
+        match ops.mapM parseOp with
+        | some eops =>
+          let (_, outs) := eops.foldl (fun (acc : Msg × List String) op =>
+            let m' := applyEdit acc.1 op
+            (m', acc.2 ++ [toHex (encodeMsg m')])) (m0, [])
+          " ".intercalate outs
+        | none => "bad-op"
+      | _ => "unloadable"
+    | none => "bad-op"
   | "chunks" :: maxLen :: hexes =>
     match maxLen.toNat?, hexes.mapM ofHex with
     | some mx, some chunks =>
